@@ -41,10 +41,10 @@ Proof. revert b; induction a; destruct b; cbn; try discriminate; auto.
   intros H; apply andb_true_iff in H as [H1 H2]. apply N.eqb_eq in H1. f_equal; auto. Qed.
 Lemma nlist_eqb_refl a : nlist_eqb a a = true.
 Proof. induction a; cbn; auto. rewrite N.eqb_refl; auto. Qed.
-Fixpoint natlist_eqb (a b:list nat) := match a,b with [],[] => true | x::a,y::b => Nat.eqb x y && natlist_eqb a b | _,_ => false end.
+Fixpoint natlist_eqb (a b:list nat) := match a,b with [],[] => true | x::a,y::b => if Nat.eqb x y then natlist_eqb a b else false | _,_ => false end.
 Lemma natlist_eqb_eq a b : natlist_eqb a b = true -> a = b.
 Proof. revert b; induction a; destruct b; cbn; try discriminate; auto.
-  intros H; apply andb_true_iff in H as [H1 H2]. apply Nat.eqb_eq in H1. f_equal; auto. Qed.
+  intros H. destruct (Nat.eqb a n) eqn:H1; [|discriminate]. apply Nat.eqb_eq in H1. f_equal; auto. Qed.
 Lemma natlist_eqb_refl a : natlist_eqb a a = true.
 Proof. induction a; cbn; auto. rewrite Nat.eqb_refl; auto. Qed.
 
